@@ -505,8 +505,8 @@ class Interp:
             if name == "set" and isinstance(recv, T.Term) and recv.op == "getitem" and isinstance(recv.args[0], T.Term) and recv.args[0].op == "attr" and recv.args[0].args[1] == "at":
                 return T.mk("at_set", (recv.args[0].args[0], recv.args[1], *args), kwargs, origin=site)
             return T.mk("mcall", (recv, name, *args), kwargs, origin=site)
-        if f.op == "unravel_of" and len(args) == 1 and not kwargs and isinstance(args[0], T.Term) and args[0].op == "tree.ravel" and args[0].args[0] is f.args[0]:
-            return f.args[0]  # unravel(ravel(x)) == x
+        if f.op == "unravel_of" and len(args) == 1 and isinstance(args[0], T.Term) and args[0].op == "tree.ravel" and (args[0].args[0] is f.args[0] or T._freeze(args[0].args[0]) == T._freeze(f.args[0])):
+            return args[0].args[0]  # unravel(ravel(x)) == x (a recorded dtype cast of the example does not change structure, shapes or values)
         if f.op == "unravel_of" and len(args) == 1 and not kwargs and isinstance(f.args[0], (list, tuple)) and f.args[0] and all(isinstance(x, T.Term) for x in f.args[0]):
             # un-ravelling into a flat list/tuple of leaves gives a container of the same length (entry i is opaque)
             whole = T.mk("call", (f, *args), kwargs, origin=site)
@@ -1812,9 +1812,37 @@ def _p_unflatten(it, args, kwargs, site):
     return _MISSING
 
 
+def strip_casts(x):
+    """(x without value-preserving dtype casts, the dtype cast to or None).  The abstract values carry no dtype: asarray(v, dtype=...) /
+    v.astype(...) / tree_map(leaf -> cast(leaf), X) denote the same container as far as structure, shapes and values go."""
+    if isinstance(x, (list, tuple)):
+        parts = [strip_casts(y) for y in x]
+        dts = [d for _y, d in parts if d is not None]
+        if not dts:
+            return x, None
+        out = [y for y, _d in parts]
+        return (out if isinstance(x, list) else tuple(out)), dts[0]
+    if isinstance(x, T.Term):
+        if x.op == "np.asarray" and x.args and (x.kwargs.get("dtype") is not None or len(x.args) > 1):
+            y, _ = strip_casts(x.args[0])
+            return y, x.kwargs.get("dtype", x.args[1] if len(x.args) > 1 else None)
+        if x.op == "mcall" and len(x.args) == 3 and x.args[1] == "astype":
+            y, _ = strip_casts(x.args[0])
+            return y, x.args[2]
+        if x.op == "tree.tree_map" and len(x.args) == 2 and isinstance(x.args[0], T.Term) and x.args[0].op == "lam" and x.args[0].args[0] == 1:
+            body, d = strip_casts(x.args[0].args[1])
+            if d is not None and isinstance(body, T.Term) and body.op == "leaf_of" and body.args[0] is x.args[1]:
+                return x.args[1], d
+    return x, None
+
+
 @prim("tree.ravel_pytree")
 def _p_ravel(it, args, kwargs, site):
     (x,) = args
+    x, cast = strip_casts(x)
+    if cast is not None:
+        flat = T.mk("tree.ravel", (x,), origin=site)
+        return flat, T.mk("unravel_of", (x,), {"cast_to": cast}, origin=site)
     if isinstance(x, T.Term) and x.op == "call" and isinstance(x.args[0], T.Term) and x.args[0].op == "unravel_of" and len(x.args) == 2:
         # ravel(unravel(v)) == v
         flat = x.args[1]
